@@ -1002,7 +1002,8 @@ def query_times(rng, b, dense):
             ts.append(rng.randint(0, max(1, t3)))
     else:
         ts += [10 ** 9, 10 ** 10]
-    return ts
+    # (a degenerate profile — zero velocity limit — has t2 = t3 = i64::MAX: keep every query time an i64)
+    return [min(max(x, I64_MIN), I64_MAX) for x in ts]
 
 
 def neg_state(tok):
@@ -1021,6 +1022,11 @@ def gen_mp(rng, tier, dense, pid):
     ins.append((state(0.0, -0.1, 0.0), state(0.0, -0.1, 0.0), q(0.1, 1, -1), q(0.01, 1, -2)))
     ins.append((state(1.0, 0.0, 0.0), state(1.0, 0.0, 0.0), q(0.1, 1, -1), q(0.01, 1, -2)))
     ins.append((state(0.0, 0.0, 0.0), state(3.0, 0.0, 0.0), q(0.1, 1, -1), q(0.0, 1, -2)))       # zero acceleration
+    # limits given as -0.0 / +0.0 / NaN: `abs` of the limit must behave like f32::abs in EVERY configuration (regression for the repaired
+    # no_std abs: with -0.0 the std build accepted — infinite cruise — and the no_std builds panicked)
+    for lim in ("80000000", "00000000", "7fc00000", "ffc00000"):
+        ins.append((state(0.0, 0.0, 0.0), state(3.0, 0.0, 0.0), "Q:%s:1,-1" % lim, q(0.01, 1, -2)))
+        ins.append((state(0.0, 0.0, 0.0), state(3.0, 0.0, 0.0), q(0.1, 1, -1), "Q:%s:1,-2" % lim))
     ins.append((state(0.0, 0.0, 0.0), state(3.0, 0.0, 0.0), q(0.1, 1, 0), q(0.01, 1, -2)))       # wrong unit
     ins.append((state(0.0, 0.0, 0.0), state(3.0, 0.0, 0.0), q(0.1, 1, -1), q(0.01, 1, -1)))      # wrong unit
     for _ in range(n_of(tier, 40, 200)):
@@ -1739,6 +1745,10 @@ def gen_C19(rng, tier):
     for sm in ["3f800000", "00000000", f2h(0.5)]:
         for ty, v1, v2 in (("f", f2h(5.0), f2h(9.0)), ("q", q(5.0, 1, 0), q(9.0, 1, 0))):
             L.append("ss ewma %s %s S@10@%s S@10@%s S@1000000010@%s S@1000000010@%s" % (ty, sm, v1, v2, v1, v2))
+    # motion profiles whose limits are -0.0 / +0.0 / NaN (the constructor takes `abs` of both limits: regression for the no_std abs)
+    for lim in ("80000000", "00000000", "7fc00000", "ffc00000"):
+        L.append("mp %s %s Q:%s:1,-1 %s 0 1000000000" % (state(0.0, 0.0, 0.0), state(3.0, 0.0, 0.0), lim, q(0.01, 1, -2)))
+        L.append("mp %s %s %s Q:%s:1,-2 0 1000000000" % (state(0.0, 0.0, 0.0), state(3.0, 0.0, 0.0), q(0.1, 1, -1), lim))
     rel = RELATIONS  # (relations of the individual generators are not used here)
     return L
 
